@@ -29,6 +29,13 @@ FILES = {
     "type_error_linear": "prc[a] : lin 1 = print hello; close self\nprc[b] : lin 1 = print b; close self\nprc[c] : lin 1 = wait a; wait a; close self\n",
     "empty": "",
     "only_types": "type A = 1 * 1\n",
+    # files without any process: everything before the runtime must still happen (parse, check, status)
+    "only_defs_ok": "type nat = +{zero : 1, succ : nat}\nlet z() : nat = x : 1 <- new close self; self.zero<x>\n",
+    "only_defs_type_error": "type nat = +{zero : 1, succ : nat}\nlet consume(n : nat) : 1 = case n ( zero<c> => wait c; close self | succ<c> => fwd self c )\n",
+    "only_types_bad": "type A = A\n",
+    "only_defs_dup_function": "let f() : 1 = close self\nlet f() : 1 = close self\n",
+    "procs_commented_out": "let g(x : 1) : 1 = close self\n// prc[a] : 1 = print hello; close self\n/* prc[b] : 1 = close self */\n",
+    "only_assumption": "assuming x : 1 * 1\n",
     "open_program": "assuming x : 1\nprc[a] : 1 = wait x; print never; close self\n",
     "rejected_but_runnable": "prc[a] : 1 = print unchecked; close self\nprc[b] : 1 * 1 = print second; close self\n",
 }
